@@ -10,4 +10,12 @@ CONSTANTS
   WithReopen = FALSE
   WithCenter = TRUE
   Repaired = FALSE
+  Contents <- AllContents
+  SizeClasses = {"s", "w=", "w+", "m-", "m=", "m+", "mm+"}
+  MaxBig = 1
+  WriteLimit = 128
+  MergeLimit = 333
+  CacheChoices = {TRUE, FALSE}
+  ReadOptional = TRUE
+  Purge = TRUE
 CHECK_DEADLOCK FALSE
